@@ -276,7 +276,8 @@ def main(argv=None):
         code = C.EXIT_VIOLATION          # a decided violation is reported even if some other engine section broke (its errors are printed too)
     elif errors:
         code = C.EXIT_ENGINE
-    elif undec:
+    elif undec or unreach:
+        # a function that left the verifier's subset is decided by nobody: the bounded stand-in ran deeper and found nothing, which is not "held"
         code = C.EXIT_UNDECIDED
     else:
         code = C.EXIT_OK
